@@ -37,7 +37,7 @@ ASSUMPTIONS = [
 ]
 BUDGET = {
     "quick": {"examples": 300, "wall_s": 100, "shards": 4},
-    "thorough": {"examples": 3000, "wall_s": 1200, "shards": 16},
+    "thorough": {"examples": 5000, "wall_s": 1500, "shards": 16},
 }
 
 WF = r'''
